@@ -55,7 +55,7 @@ fn parse_row(s: &str) -> Row {
 }
 
 fn parse_table(s: &str) -> Vec<Row> {
-    if s == "-" {
+    if s == "-" || s.starts_with('e') {
         return vec![];
     }
     if let Some(rest) = s.strip_prefix("gen:") {
@@ -96,8 +96,19 @@ fn build_chunk(rows: &[Row], ncols: usize) -> DataChunk {
     DataChunk::new(cols)
 }
 
+/// number of columns of a table token (`e<w>` = empty table with w columns)
+fn table_width(s: &str, rows: &[Row]) -> usize {
+    if let Some(w) = s.strip_prefix('e') {
+        return w.parse().unwrap();
+    }
+    rows.first().map_or(1, |r| r.len())
+}
+
 fn split_chunks(rows: &[Row], sizes: &[usize]) -> Vec<DataChunk> {
-    let ncols = rows.first().map_or(1, |r| r.len());
+    split_chunks_w(rows, sizes, rows.first().map_or(1, |r| r.len()))
+}
+
+fn split_chunks_w(rows: &[Row], sizes: &[usize], ncols: usize) -> Vec<DataChunk> {
     let mut out = Vec::new();
     let mut pos = 0;
     for &n in sizes {
@@ -397,7 +408,7 @@ fn run_chain(src: &str, table: &str, opds: &[OpD]) -> String {
         let max = rows.len() + 64;
         Box::new(Fuel { inner: VectorSource::new(columns_of(&rows)), calls: 0, max })
     } else {
-        let chunks = split_chunks(&rows, &parse_sizes(src));
+        let chunks = split_chunks_w(&rows, &parse_sizes(src), table_width(table, &rows));
         Box::new(ListSource { chunks: chunks.into_iter().map(Some).collect(), pos: 0 })
     };
     let mut p = Pipeline::new(source, operators, Box::new(sink.clone()));
@@ -420,8 +431,8 @@ fn any_schema(w: usize) -> Vec<LogicalType> {
 
 fn run_pull(src: &str, table: &str, opds: &[OpD]) -> String {
     let rows = parse_table(table);
-    let mut width = rows.first().map_or(1, |r| r.len());
-    let chunks = split_chunks(&rows, &parse_sizes(src));
+    let mut width = table_width(table, &rows);
+    let chunks = split_chunks_w(&rows, &parse_sizes(src), width);
     let mut cur: Box<dyn Operator> = Box::new(Mock { chunks: chunks.into_iter().map(Some).collect(), pos: 0 });
     let store = Arc::new(grafeo_core::graph::lpg::LpgStore::new());
     for d in opds {
@@ -889,6 +900,20 @@ fn run_big(n: u64, mult: u64, opds: &[OpD]) -> String {
     digest(&out)
 }
 
+fn run_dmerge(tables: &[&str]) -> String {
+    let results: Vec<Vec<DataChunk>> = tables
+        .iter()
+        .map(|t| {
+            let rows = parse_table(t);
+            if rows.is_empty() { vec![] } else { vec![build_chunk(&rows, rows[0].len())] }
+        })
+        .collect();
+    match par::merge_distinct_results(results) {
+        Ok(cs) => show_rows(&cs.iter().flat_map(chunk_rows).collect::<Vec<_>>()),
+        Err(_) => "err".into(),
+    }
+}
+
 fn run_expr(op: &str, a: &str, b: &str) -> String {
     let e = Ex::Bin(op.to_string(), Box::new(Ex::Col(0)), Box::new(Ex::Col(1)));
     let chunk = build_chunk(&[vec![untok(a), untok(b)]], 2);
@@ -922,9 +947,503 @@ pub fn run(args: &[&str]) -> String {
             ["selop", op, phys, sel] => run_selop(op, phys, sel),
             ["big", n, m, ops @ ..] => run_big(n.parse().unwrap(), m.parse().unwrap(), &ops.iter().map(|o| parse_op(o)).collect::<Vec<_>>()),
             ["expr", op, x, y] => run_expr(op, x, y),
+            ["dmerge", tables @ ..] => run_dmerge(tables),
             _ => "bad-op".into(),
         }
     })
 }
 
-pub fn generate(_seed: u64, _cases: usize, _out: &mut Vec<String>) {}
+
+// ---------------------------------------------------------------------------------------------
+// generator
+// ---------------------------------------------------------------------------------------------
+
+#[derive(Clone, Copy, PartialEq, Debug)]
+enum Kind {
+    Int, // small integers and NULL
+    Str, // short strings and NULL
+    Mix, // anything, including values whose hash keys collide
+}
+
+fn gen_val(r: &mut Rng, k: Kind) -> Value {
+    match k {
+        Kind::Int => {
+            if r.chance(1, 7) {
+                Value::Null
+            } else {
+                Value::Int64(r.below(9) as i64 - 3)
+            }
+        }
+        Kind::Str => {
+            if r.chance(1, 7) {
+                Value::Null
+            } else {
+                Value::String(r.pick(&["", "a", "b", "ab", "é"]).to_string().into())
+            }
+        }
+        Kind::Mix => match r.below(12) {
+            0 => Value::Null,
+            1 => Value::Bool(false),
+            2 => Value::Bool(true),
+            3 => Value::Int64(0),
+            4 => Value::Int64(1),
+            5 => Value::Float64(0.0),
+            6 => Value::Float64(1.5),
+            7 => Value::Int64(1.5f64.to_bits() as i64),
+            8 => Value::String("".into()),
+            9 => Value::String("a".into()),
+            10 => r.pick(&[Value::Float64(-0.0), Value::Float64(f64::NAN), Value::Float64(2.0), Value::Float64(1.0)]).clone(),
+            _ => Value::Int64(2),
+        }
+        .clone(),
+    }
+}
+
+fn gen_table(r: &mut Rng, kinds: &[Kind], n: usize) -> Vec<Row> {
+    (0..n).map(|_| kinds.iter().map(|k| gen_val(r, *k)).collect()).collect()
+}
+
+fn table_str_w(rows: &[Row], w: usize) -> String {
+    if rows.is_empty() { format!("e{w}") } else { table_str(rows) }
+}
+
+fn table_str(rows: &[Row]) -> String {
+    if rows.is_empty() { "-".into() } else { rows.iter().map(show_row).collect::<Vec<_>>().join(";") }
+}
+
+fn gen_sizes(r: &mut Rng, n: usize) -> String {
+    let mut left = n;
+    let mut v: Vec<usize> = Vec::new();
+    let style = r.below(5);
+    while left > 0 && v.len() < 12 {
+        let s = match style {
+            0 => 1,
+            1 => r.below(3) as usize,
+            2 => left,
+            _ => r.below(left as u64 + 2) as usize,
+        };
+        let s = s.min(left);
+        v.push(s);
+        left -= s;
+    }
+    if r.chance(1, 5) {
+        v.push(0);
+    }
+    // whatever is left over becomes one more chunk on both sides
+    format!("c:{}", if v.is_empty() { "-".to_string() } else { join(&v) })
+}
+
+fn gen_count(r: &mut Rng, n: usize) -> usize {
+    match r.below(8) {
+        0 => 0,
+        1 => 1,
+        2 => n,
+        3 => n + 2,
+        4 => *r.pick(&[255usize, 256, 999, 1000, 300]),
+        _ => r.below(n as u64 + 2) as usize,
+    }
+}
+
+fn gen_const(r: &mut Rng, k: Kind) -> Value {
+    if r.chance(1, 8) {
+        // a constant of another type: exposes the comparison semantics
+        return r.pick(&[Value::Float64(2.0), Value::Bool(true), Value::Bool(false), Value::Null, Value::Int64(1)]).clone();
+    }
+    loop {
+        let v = gen_val(r, k);
+        if !matches!(v, Value::Null) || r.chance(1, 6) {
+            return v;
+        }
+    }
+}
+
+fn cols_of_kind(kinds: &[Kind], pred: impl Fn(Kind) -> bool) -> Vec<usize> {
+    kinds.iter().enumerate().filter(|(_, k)| pred(**k)).map(|(i, _)| i).collect()
+}
+
+fn gen_keys(r: &mut Rng, cols: &[usize]) -> String {
+    let n = 1 + r.below(2.min(cols.len() as u64)) as usize;
+    let mut used: Vec<usize> = Vec::new();
+    let mut out = Vec::new();
+    for _ in 0..n {
+        let c = *r.pick(cols);
+        if used.contains(&c) {
+            continue;
+        }
+        used.push(c);
+        out.push(format!("{}{}{}", c, if r.chance(1, 2) { "a" } else { "d" }, if r.chance(1, 2) { "f" } else { "l" }));
+    }
+    out.join(".")
+}
+
+/// one operator item that is well-typed for `kinds`; returns the item and the new column kinds.
+/// `ordered` = the row order is determined so far (false after a grouped aggregate).
+fn gen_op(r: &mut Rng, kinds: &[Kind], nrows: usize, allow_limit: bool, pull_ok: bool) -> Option<(String, Vec<Kind>, bool)> {
+    let w = kinds.len();
+    match r.below(11) {
+        0 | 1 => {
+            let c = r.below(w as u64) as usize;
+            let op = *r.pick(&["eq", "ne", "lt", "le", "gt", "ge"]);
+            Some((format!("f:{}:{}:{}", c, op, tok(&gen_const(r, kinds[c]))), kinds.to_vec(), true))
+        }
+        2 => {
+            let n = 1 + r.below(3) as usize;
+            let ints = cols_of_kind(kinds, |k| k == Kind::Int);
+            let mut es = Vec::new();
+            let mut ks = Vec::new();
+            for _ in 0..n {
+                match r.below(if ints.is_empty() || pull_ok { 3 } else { 5 }) {
+                    0 | 1 => {
+                        let c = r.below(w as u64) as usize;
+                        es.push(format!("c{c}"));
+                        ks.push(kinds[c]);
+                    }
+                    2 => {
+                        let kk = *r.pick(&[Kind::Int, Kind::Str, Kind::Mix]);
+                        let v = gen_val(r, kk);
+                        ks.push(match v {
+                            Value::Int64(i) if (-3..=5).contains(&i) => Kind::Int,
+                            Value::Null => Kind::Int,
+                            _ => Kind::Mix,
+                        });
+                        es.push(format!("k{}", tok(&v)));
+                    }
+                    _ => {
+                        let a = *r.pick(&ints);
+                        let op = *r.pick(&["add", "sub", "mul", "div", "mod"]);
+                        let rhs = if r.chance(1, 2) {
+                            format!("c{}", r.pick(&ints))
+                        } else {
+                            format!("kI{}", *r.pick(&[0i64, 1, -1, 2, 3, 9223372036854775807, -9223372036854775807]))
+                        };
+                        es.push(format!("b{op}.c{a}.{rhs}"));
+                        // products of huge constants leave the small-integer range: no longer summed
+                        ks.push(Kind::Mix);
+                    }
+                }
+            }
+            Some((format!("p:{}", es.join(",")), ks, true))
+        }
+        3 if allow_limit => Some((format!("l:{}", gen_count(r, nrows)), kinds.to_vec(), true)),
+        4 => Some((format!("s:{}", gen_count(r, nrows)), kinds.to_vec(), true)),
+        5 if allow_limit => Some((format!("sl:{}:{}", gen_count(r, nrows), gen_count(r, nrows)), kinds.to_vec(), true)),
+        6 | 7 => {
+            let tag = if r.chance(2, 3) { "d" } else { "dm" };
+            if r.chance(1, 2) {
+                Some((tag.to_string(), kinds.to_vec(), true))
+            } else {
+                let c: Vec<usize> = (0..w).filter(|_| r.chance(1, 2)).collect();
+                if c.is_empty() {
+                    Some((tag.to_string(), kinds.to_vec(), true))
+                } else {
+                    Some((format!("{}:{}", tag, c.iter().map(|x| x.to_string()).collect::<Vec<_>>().join(".")), kinds.to_vec(), true))
+                }
+            }
+        }
+        8 => {
+            let cols = cols_of_kind(kinds, |k| k != Kind::Mix);
+            if cols.is_empty() {
+                return None;
+            }
+            Some((format!("o:{}", gen_keys(r, &cols)), kinds.to_vec(), true))
+        }
+        9 | 10 => {
+            let g: Vec<usize> = (0..w).filter(|_| r.chance(1, 3)).collect();
+            let ints = cols_of_kind(kinds, |k| k == Kind::Int);
+            let mut aggs: Vec<String> = Vec::new();
+            let mut ks: Vec<Kind> = g.iter().map(|c| kinds[*c]).collect();
+            for _ in 0..r.below(4) {
+                if ints.is_empty() || r.chance(1, 4) {
+                    aggs.push("cs".into());
+                    ks.push(Kind::Int);
+                } else {
+                    let c = *r.pick(&ints);
+                    let f = *r.pick(&["c", "s", "mn", "mx"]);
+                    aggs.push(format!("{f}{c}"));
+                    ks.push(if f == "s" { Kind::Mix } else { Kind::Int });
+                }
+            }
+            if g.is_empty() && aggs.is_empty() {
+                aggs.push("cs".into());
+                ks.push(Kind::Int);
+            }
+            let gs = if g.is_empty() { "-".to_string() } else { g.iter().map(|x| x.to_string()).collect::<Vec<_>>().join(".") };
+            let al = if aggs.is_empty() { "-".to_string() } else { aggs.join(".") };
+            Some((format!("g:{gs}:{al}"), ks, g.is_empty()))
+        }
+        _ => None,
+    }
+}
+
+/// a chain of 0..4 items; a limit-like item in non-final position only when `early_limits`
+fn gen_chain(r: &mut Rng, kinds0: &[Kind], nrows: usize, early_limits: bool, pull_ok: bool) -> Vec<String> {
+    let len = r.below(5) as usize;
+    let mut kinds = kinds0.to_vec();
+    let mut out: Vec<String> = Vec::new();
+    let mut ordered = true;
+    let mut tries = 0;
+    while out.len() < len && tries < 40 {
+        tries += 1;
+        if !ordered {
+            // after a grouped aggregate the row order is the hash map's: only a total sort on the
+            // group columns (unique, comparable keys) may follow
+            break;
+        }
+        let last = out.len() + 1 == len;
+        if let Some((item, ks, ord)) = gen_op(r, &kinds, nrows, last || early_limits, pull_ok) {
+            if ks.is_empty() {
+                continue;
+            }
+            out.push(item);
+            kinds = ks;
+            ordered = ord;
+        }
+    }
+    out
+}
+
+fn cmp_val(a: &Value, b: &Value) -> std::cmp::Ordering {
+    use std::cmp::Ordering::*;
+    match (a, b) {
+        (Value::Int64(x), Value::Int64(y)) => x.cmp(y),
+        (Value::String(x), Value::String(y)) => x.as_str().cmp(y.as_str()),
+        _ => Equal,
+    }
+}
+
+/// the comparator every sort of the code base implements, for integer / string / NULL keys
+fn cmp_keys(keys: &[(usize, bool, bool)], a: &Row, b: &Row) -> std::cmp::Ordering {
+    use std::cmp::Ordering::*;
+    for &(c, asc, nf) in keys {
+        let o = match (&a[c], &b[c]) {
+            (Value::Null, Value::Null) => Equal,
+            (Value::Null, _) => if nf { Less } else { Greater },
+            (_, Value::Null) => if nf { Greater } else { Less },
+            (x, y) => cmp_val(x, y),
+        };
+        let o = if asc { o } else { o.reverse() };
+        if o != Equal {
+            return o;
+        }
+    }
+    Equal
+}
+
+fn gen_part_script(r: &mut Rng, single: bool) -> Vec<String> {
+    let keys = ["I1", "I2", "N", "S61", "I1,I2", "B0", "F0000000000000000", "I0"];
+    let n = 2 + r.below(10);
+    let mut v: Vec<String> = Vec::new();
+    for _ in 0..n {
+        let k = *r.pick(&keys);
+        v.push(match r.below(if single { 13 } else { 9 }) {
+            0 | 1 | 2 => format!("i:{}:{}", k, r.below(50)),
+            3 | 4 => format!("a:{}:{}", k, r.below(9) as i64 - 3),
+            5 => format!("g:{k}"),
+            6 => "sl".into(),
+            7 => "su".into(),
+            8 => "sz".into(),
+            9 => "sp:0".into(),
+            10 => "fs".into(),
+            11 => "it".into(),
+            _ => if r.chance(1, 2) { "cl".into() } else { "dr".into() },
+        });
+    }
+    if !single || r.chance(1, 2) {
+        v.push(if !single || r.chance(1, 2) { "dr".into() } else { "cl".into() });
+    }
+    v
+}
+
+pub fn generate(seed: u64, cases: usize, out: &mut Vec<String>) {
+    let mut r = Rng::new(seed ^ 0x70757368);
+    // fixed lines: single chunks beyond the 16-bit selection index, arithmetic edge cases
+    for l in [
+        "push big 65535 7919 o:0al s:10",
+        "push big 65537 7919 o:0al s:1",
+        "push big 70000 7919 o:0al f:0:ge:I5",
+        "push big 66000 3 o:0al d",
+        "push big 66000 3 o:0al l:65535",
+        "push big 66000 3 o:0al l:65536",
+        "push big 66000 1 s:65990",
+        "push expr div I-9223372036854775808 I-1",
+        "push expr mod I-9223372036854775808 I-1",
+        "push expr mul I4611686018427387904 I2",
+        "push expr div I7 I0",
+        "push expr mod I-7 I2",
+        "push expr add S61 I1",
+        "push dmerge N,I0 I0,N",
+        "push dmerge I1,I2;I1,I2 I1,I2;I2,I1",
+    ] {
+        out.push(l.to_string());
+    }
+    for c in 0..cases {
+        out.push(format!("# case {} seed {}", c, seed));
+        // --- push pipeline and pull operators on the same table and chain
+        for _ in 0..3 {
+            let w = 1 + r.below(3) as usize;
+            let kinds: Vec<Kind> = (0..w).map(|_| *r.pick(&[Kind::Int, Kind::Int, Kind::Str, Kind::Mix])).collect();
+            let n = match r.below(6) {
+                0 => 0,
+                1 => 1,
+                _ => r.below(30) as usize,
+            };
+            let rows = gen_table(&mut r, &kinds, n);
+            let pull_ok = r.chance(2, 3);
+            let early = r.chance(1, 5);
+            let chain = gen_chain(&mut r, &kinds, n, early, pull_ok);
+            let ops = chain.join(" ");
+            let t = table_str_w(&rows, w);
+            let src = if r.chance(1, 4) { "v".to_string() } else { gen_sizes(&mut r, n) };
+            out.push(format!("push chain {} {} {}", src, t, ops).trim_end().to_string());
+            if pull_ok {
+                let src = if src == "v" { gen_sizes(&mut r, n) } else { src };
+                out.push(format!("push pull {} {} {}", src, t, ops).trim_end().to_string());
+            }
+        }
+        // --- real parallel pipeline
+        {
+            let kinds = [Kind::Int, *r.pick(&[Kind::Int, Kind::Str])];
+            let (t, n) = if r.chance(1, 6) {
+                let n = *r.pick(&[1000usize, 1024, 1025, 2500, 3000]);
+                (format!("gen:{}:{}:{}", n, r.pick(&[1u64, 7, 13]), r.pick(&[5u64, 11, 1000])), n)
+            } else {
+                let n = r.below(25) as usize;
+                (table_str(&gen_table(&mut r, &kinds, n)), n)
+            };
+            let workers = *r.pick(&[1usize, 1, 2, 3, 4, 7, 8, 16]);
+            let morsel = if n >= 1000 {
+                r.pick(&["pC", "pC", "100", "333", "1000", "1024", "1025", "5000", "pN", "pH", "pM"]).to_string()
+            } else {
+                match r.below(6) {
+                    0 => "1".to_string(),
+                    1 => n.to_string(),
+                    2 => (n + 1).to_string(),
+                    3 => r.pick(&["pC", "pN"]).to_string(),
+                    _ => r.range(1, 8).to_string(),
+                }
+            };
+            let morsel = if morsel == "0" { "1".to_string() } else { morsel };
+            let chunk = *r.pick(&[1usize, 2, 3, 7, 2048, 2048]);
+            let sk = if n < 1000 && r.chance(1, 3) { gen_sizes(&mut r, n) } else { "v".to_string() };
+            let mut ops: Vec<String> = Vec::new();
+            for _ in 0..r.below(3) {
+                if r.chance(2, 3) {
+                    let c = r.below(2) as usize;
+                    let k = if n >= 1000 { Value::Int64(r.below(6) as i64) } else { gen_val(&mut r, kinds[c]) };
+                    ops.push(format!("f:{}:{}:{}", c, r.pick(&["eq", "ne", "lt", "le", "gt", "ge"]), tok(&k)));
+                } else {
+                    ops.push("p:c0,c1".to_string());
+                }
+            }
+            let mut t = t;
+            match r.below(4) {
+                0 => ops.push(format!("o:{}", gen_keys(&mut r, &[0, 1]))),
+                1 if n <= 1025 => {
+                    ops.push("d".to_string());
+                    // `merge_distinct_results` hashes the concatenated column feeds: (NULL, 0) and
+                    // (0, NULL) collide and which of them survives depends on the schedule. The
+                    // collision itself is exercised by `push dmerge`; here the table has no NULLs.
+                    if !t.starts_with("gen:") && t != "-" {
+                        let rows: Vec<Row> = parse_table(&t)
+                            .into_iter()
+                            .map(|row| row.into_iter().map(|v| if matches!(v, Value::Null) { Value::Int64(9) } else { v }).collect())
+                            .collect();
+                        t = table_str(&rows);
+                    }
+                }
+                _ => {}
+            }
+            out.push(format!("push par {} {} {} {} {} {}", workers, morsel, chunk, sk, t, ops.join(" ")).trim_end().to_string());
+        }
+        // --- external sort
+        {
+            let kinds = [*r.pick(&[Kind::Int, Kind::Str]), Kind::Int];
+            let n = r.below(24) as usize;
+            let mut rows = gen_table(&mut r, &kinds, n);
+            if r.chance(1, 2) {
+                // make every row unique so that the order among equal keys is observable
+                for (i, row) in rows.iter_mut().enumerate() {
+                    row[1] = Value::Int64(100 + i as i64);
+                }
+            }
+            let thr = match r.below(7) {
+                0 => 0,
+                1 => 1,
+                2 => n,
+                3 => n + 1,
+                4 => 100_000,
+                _ => r.below(n as u64 + 2) as usize,
+            };
+            let keys = if r.chance(2, 3) { format!("0{}{}", r.pick(&["a", "d"]), r.pick(&["f", "l"])) } else { gen_keys(&mut r, &[0, 1]) };
+            out.push(format!("push xsort {} {} {} {}", thr, gen_sizes(&mut r, n), table_str(&rows), keys));
+            if r.chance(1, 2) {
+                let pk = parse_keys(&keys);
+                let k = r.below(4) as usize;
+                let mut runs: Vec<String> = Vec::new();
+                for _ in 0..k {
+                    let m = r.below(6) as usize;
+                    let mut run = gen_table(&mut r, &kinds, m);
+                    run.sort_by(|a, b| cmp_keys(&pk, a, b));
+                    runs.push(table_str(&run));
+                }
+                let mm = r.below(5) as usize;
+                let mem = gen_table(&mut r, &kinds, mm);
+                out.push(format!("push xruns {} {} {}", keys, table_str(&mem), runs.join(" ")).trim_end().to_string());
+            }
+        }
+        // --- spillable aggregation
+        {
+            let kinds = [*r.pick(&[Kind::Int, Kind::Str, Kind::Mix]), Kind::Int, *r.pick(&[Kind::Int, Kind::Mix])];
+            let n = r.below(24) as usize;
+            let rows = gen_table(&mut r, &kinds, n);
+            let thr = *r.pick(&[0usize, 1, 2, 3, 5, 100_000]);
+            let g = *r.pick(&["0", "0", "0.2", "2", "-"]);
+            let aggs = *r.pick(&["cs", "cs.s1", "c1.mn1.mx1", "s1", "-"]);
+            let aggs = if g == "-" && aggs == "-" { "cs" } else { aggs };
+            out.push(format!("push xagg {} {} {} g:{}:{}", thr, gen_sizes(&mut r, n), table_str(&rows), g, aggs));
+        }
+        // --- partitioned state
+        if r.chance(1, 2) {
+            let single = r.chance(2, 3);
+            let n = if single { 1 } else { *r.pick(&[2usize, 4, 256]) };
+            out.push(format!("push part {} {}", n, gen_part_script(&mut r, single).join(" ")));
+        }
+        // --- a chunk that carries a selection vector
+        {
+            let kinds = [*r.pick(&[Kind::Int, Kind::Mix])];
+            let n = r.below(10) as usize + 1;
+            let rows = gen_table(&mut r, &kinds, n);
+            let sel: Vec<usize> = (0..n).filter(|_| r.chance(1, 2)).collect();
+            let op = match r.below(6) {
+                0 => format!("f:0:{}:{}", r.pick(&["eq", "ne", "gt", "le"]), tok(&gen_val(&mut r, kinds[0]))),
+                1 => format!("l:{}", r.below(n as u64 + 1)),
+                2 => format!("s:{}", r.below(n as u64 + 1)),
+                3 => "d".to_string(),
+                4 => "p:c0,kI7".to_string(),
+                _ => "dm".to_string(),
+            };
+            out.push(format!("push selop {} {} {}", op, table_str(&rows), list_arg(&sel)));
+        }
+        if r.chance(1, 3) {
+            // merge of per-worker DISTINCT results, one chunk per worker
+            let kinds = [*r.pick(&[Kind::Int, Kind::Mix]), *r.pick(&[Kind::Int, Kind::Mix])];
+            let k = 1 + r.below(3) as usize;
+            let ts: Vec<String> = (0..k)
+                .map(|_| {
+                    let n = r.below(6) as usize;
+                    table_str(&gen_table(&mut r, &kinds, n))
+                })
+                .collect();
+            out.push(format!("push dmerge {}", ts.join(" ")));
+        }
+        if r.chance(1, 3) {
+            let big = [i64::MIN, i64::MAX, -1, 0, 1, 2, 3037000500, -3037000500];
+            out.push(format!(
+                "push expr {} I{} I{}",
+                r.pick(&["add", "sub", "mul", "div", "mod"]),
+                r.pick(&big),
+                r.pick(&big)
+            ));
+        }
+    }
+}
